@@ -44,6 +44,10 @@ type c14Pair struct {
 	// ReinitOther: the poller's pending message is the re-initialisation message of another round (the recorded one made
 	// out for another round identifier): the node replays that round's old log while the API finishes the first round
 	ReinitOther bool `json:"reinit_other,omitempty"`
+	// BoardDown: the board refuses the node's first write (the API request's post): the request is refused - in every
+	// order and interleaving its operation is pending afterwards, ready for another attempt
+	BoardDown bool `json:"board_down,omitempty"`
+	opID      string
 }
 
 type c14Schedule struct {
@@ -188,6 +192,9 @@ func c14Execute(tr *ceremonyTrace, rec opRecord, msgs []storage.Message, sc c14S
 	board.Inject(msgs...)
 	view := board.NewView(tr.Names[0])
 	view.SetWatermark(rec.BoardLen)
+	if sc.Pair.BoardDown {
+		view.FailSends = 1
+	}
 	nd, err := world.OpenNode(tr.Names[0], dir, tr.Keys[0], view, false)
 	if err != nil {
 		o.Err = err.Error()
@@ -437,6 +444,20 @@ func lockFrames(id uint64) string {
 	return strings.Join(out, " <- ")
 }
 
+// c14Refused: a request that the node refused because the board did not take its post has lost nothing - whatever the
+// poller did meanwhile, and also when nothing ran meanwhile.
+func c14Refused(pr c14Pair, sc c14Schedule, o c14Outcome) *viol {
+	if !pr.BoardDown || o.APIErrs[1] == "" {
+		return nil
+	}
+	for _, id := range o.Pending {
+		if id == pr.opID {
+			return nil
+		}
+	}
+	return violf("refused-request-lost-its-operation", "%+v, first=%d, pre-emptions %v: the board refused the post and the request failed (%s), but its operation is no longer pending (pending now: %v)", pr, sc.First, sc.Preempt, clip(o.APIErrs[1], 100), o.Pending)
+}
+
 func c14Judge(pr c14Pair, sc c14Schedule, o, serialAP, serialPA c14Outcome) *viol {
 	kind := "submit-result"
 	if pr.Reset {
@@ -444,6 +465,9 @@ func c14Judge(pr c14Pair, sc c14Schedule, o, serialAP, serialPA c14Outcome) *vio
 	}
 	if o.Err != "" {
 		return violf("harness", "%s", o.Err)
+	}
+	if v := c14Refused(pr, sc, o); v != nil {
+		return v
 	}
 	if o.Durable == serialAP.Durable || o.Durable == serialPA.Durable {
 		return nil
@@ -501,6 +525,8 @@ func c14Pairs() []c14Pair {
 		out = append(out, c14Pair{Trace: "reinit014", N: tc.n, T: tc.t, Op: 0, Msgs: 2}, c14Pair{Trace: "reinit014", N: tc.n, T: tc.t, Op: 0, Msgs: 1})
 	}
 	// finishing the re-initialisation of one round while the poller replays the old log of another round's re-initialisation
+	out = append(out, c14Pair{Trace: "honest", N: 2, T: 2, Op: 0, Msgs: 1, BoardDown: true}, c14Pair{Trace: "honest", N: 2, T: 2, Op: 2, Msgs: 1, BoardDown: true},
+		c14Pair{Trace: "honest", N: 3, T: 2, Op: 0, Msgs: 1, NewRound: true, BoardDown: true})
 	out = append(out, c14Pair{Trace: "reinit", N: 2, T: 2, Op: 0, Msgs: 1, ReinitOther: true}, c14Pair{Trace: "reinit014", N: 2, T: 2, Op: 0, Msgs: 1, ReinitOther: true})
 	return out
 }
@@ -544,6 +570,7 @@ func TestC14(t *testing.T) {
 				t.Fatalf("%v", err)
 			}
 			st.Eval()
+			sc.Pair.opID = rec.OpID
 			ap := run(tr, rec, msgs, c14Schedule{Pair: sc.Pair, First: 1})
 			pa := run(tr, rec, msgs, c14Schedule{Pair: sc.Pair, First: 0})
 			report(t, st, "schedules", c14Judge(sc.Pair, sc, run(tr, rec, msgs, sc), ap, pa), sc)
@@ -559,7 +586,7 @@ func TestC14(t *testing.T) {
 				complete = false
 				continue
 			}
-			if !thorough() && pi%3 != 0 && !pr.Reset && !pr.NewRound && pr.Trace != "reinit" && pr.Trace != "reinit014" {
+			if !thorough() && pi%3 != 0 && !pr.Reset && !pr.NewRound && !pr.BoardDown && pr.Trace != "reinit" && pr.Trace != "reinit014" {
 				complete = false
 				continue // quick: a fixed subset of pairs
 			}
@@ -570,10 +597,16 @@ func TestC14(t *testing.T) {
 			if len(msgs) < pr.Msgs {
 				continue // the trace has no further messages from others here
 			}
+			pr.opID = rec.OpID
 			ap := run(tr, rec, msgs, c14Schedule{Pair: pr, First: 1})
 			pa := run(tr, rec, msgs, c14Schedule{Pair: pr, First: 0})
 			if ap.Err != "" || pa.Err != "" {
 				t.Fatalf("pair %+v: serial runs failed: %s %s", pr, ap.Err, pa.Err)
+			}
+			for k, serial := range []c14Outcome{pa, ap} {
+				if v := c14Refused(pr, c14Schedule{Pair: pr, First: k}, serial); v != nil {
+					report(t, st, "schedules", v, c14Schedule{Pair: pr, First: k})
+				}
 			}
 			total := ap.Steps
 			if pa.Steps > total {
@@ -585,6 +618,9 @@ func TestC14(t *testing.T) {
 			}
 			if pr.ReinitOther {
 				label = fmt.Sprintf("%s:%s x re-initialisation message of another round", pr.Trace, rec.Type)
+			}
+			if pr.BoardDown {
+				label += ", the board refuses the request's post"
 			}
 			if pr.Reset {
 				label = fmt.Sprintf("%s:resetState x %d msg(s)", pr.Trace, len(msgs))
